@@ -139,6 +139,13 @@ func TestWorker(t *testing.T) {
 				rl.Sample = sc
 			}
 			emit("RESULT", rl)
+			if !v.OK && !v.Invalid {
+				// a run that ended badly may leave process-global state of the server behind (a
+				// package-level mutex that stays locked, half-built tables): the rest of the batch
+				// goes to a fresh process so that nothing is attributed to the wrong scenario
+				emit("DONE", map[string]interface{}{"early": true})
+				return
+			}
 		}
 	case "gen":
 		for _, s := range job.Seeds {
